@@ -5,3 +5,4 @@ import GormModel.Model.Pipeline
 import GormModel.Props.C15
 import GormModel.Props.C19
 import GormModel.Props.C18
+import GormModel.Props.C17
